@@ -2,6 +2,8 @@
 
 package sse
 
+import "github.com/tmaxmax/go-sse/internal/parser"
+
 // VerifHook, when set by a verification driver, is called at named points of Joe
 // (see verifAt calls). It is only compiled with the verif build tag.
 var VerifHook func(point string, a, b any)
@@ -15,3 +17,7 @@ func verifAt(point string, a, b any) {
 // VerifSubscriber is the identity of a subscription inside Joe (its done channel),
 // exposed so that drivers can key maps with the values hooks receive.
 type VerifSubscriber = subscriber
+
+// VerifSetChunkHook installs a function that receives every chunk of input the
+// parser's scanner hands out (Read and Connection alike).
+func VerifSetChunkHook(f func(text string)) { parser.VerifChunk = f }
